@@ -22,8 +22,8 @@ Inductive case :=
    1 unpaired surrogate -> U+FFFD in JSON.parse      2 number overflow -> SyntaxError in JSON.parse
    3 Object.keys order of a parsed object            4 stringify emits members in sorted key order
    5 stringify escapes < > & U+2028 U+2029            6 unpaired surrogate -> U+FFFD in JSON.stringify
-   7 property-list replacer bug                       8 string gap cut at 10 bytes
-   9 reviver deleting members skips/loses members     10 integral numbers >= 2^53 printed with all their digits *)
+   8 string gap cut at 10 bytes                       10 integral numbers >= 2^53 printed with all their digits
+   (7 property-list replacer and 9 reviver deleting members are repaired: c349b98, 7f33b5d) *)
 
 Fixpoint has_inf (v : jv Z) : bool :=
   match v with
@@ -99,10 +99,10 @@ Definition robs_eqb (ordered : bool) (a b : robs) : bool :=
   | _, _ => false
   end.
 
-Definition revive_of (rid : Z) (p : pobs) : robs * bool :=
+Definition revive_of (fuel : nat) (rid : Z) (p : pobs) : robs :=
   match p with
-  | PVal v => let '(log, res, bad) := rwalk rid 100 [] v in (RVal log res, bad)
-  | PErr c => (RErr c, false)
+  | PVal v => let '(log, res) := rwalk rid fuel [] v in RVal log res
+  | PErr c => RErr c
   end.
 
 (* --- stringify --- *)
@@ -118,10 +118,10 @@ Definition sres_internal (a : sres) : bool :=
   match a with SErr c => (c =? 97) || (c =? 98) | _ => false end.
 
 Definition without (d : Z) : flags :=
-  Build_flags (negb (d =? 4)) (negb (d =? 5)) (negb (d =? 6)) (negb (d =? 7)) (negb (d =? 8)) (negb (d =? 10)).
+  Build_flags (negb (d =? 4)) (negb (d =? 5)) (negb (d =? 6)) (negb (d =? 8)) (negb (d =? 10)).
 
 Definition only (d : Z) : flags :=
-  Build_flags (d =? 4) (d =? 5) (d =? 6) (d =? 7) (d =? 8) (d =? 10).
+  Build_flags (d =? 4) (d =? 5) (d =? 6) (d =? 8) (d =? 10).
 
 Definition stringify_class (v : js) (rep : replacer) (sp : space) : Z :=
   let full := stringify otto v rep sp in
@@ -129,9 +129,9 @@ Definition stringify_class (v : js) (rep : replacer) (sp : space) : Z :=
   (* a deviation that matters only together with another one: attribute to the first that shows alone *)
   let spec := stringify es5 v rep sp in
   let alone d := negb (sres_eqb (stringify (only d) v rep sp) spec) in
-  if differs 7 then 7 else if differs 8 then 8 else if differs 6 then 6
+  if differs 8 then 8 else if differs 6 then 6
   else if differs 5 then 5 else if differs 10 then 10 else if differs 4 then 4
-  else if alone 7 then 7 else if alone 8 then 8 else if alone 6 then 6
+  else if alone 8 then 8 else if alone 6 then 6
   else if alone 5 then 5 else if alone 10 then 10 else if alone 4 then 4 else 0.
 
 (* --- JSON.stringify(JSON.parse(text)): numbers restricted to safe integers --- *)
@@ -189,14 +189,13 @@ Definition verdict (c : case) : Z * Z :=
   | CParseOrder text b =>
       if (9 <=? top_keys text)%nat then judge Bool.eqb b false true 3 else declined
   | CRevive text rid obs =>
-      let '(m, badm) := revive_of rid (parse_model text) in
-      let '(s, bads) := revive_of rid (parse_spec text) in
-      if badm || bads then declined
-      else
-        let ordered := match parse_spec text with PVal v => negb (has_multi v) | _ => true end in
-        judge (robs_eqb ordered) obs m s (parse_class text)
+      let fuel := S (length text) in   (* nesting depth < length of the text *)
+      let m := revive_of fuel rid (parse_model text) in
+      let s := revive_of fuel rid (parse_spec text) in
+      let ordered := match parse_spec text with PVal v => negb (has_multi v) | _ => true end in
+      judge (robs_eqb ordered) obs m s (parse_class text)
   | CRevDelAll n k =>
-      if (0 <=? n) && (n <=? 40) then judge Z.eqb k (revdel_survivors n) 0 9 else declined
+      if (0 <=? n) && (n <=? 40) then judge Z.eqb k (revdel_left n) (revdel_left n) 0 else declined
   | CStringify v rep sp obs =>
       let m := stringify otto v rep sp in
       let s := stringify es5 v rep sp in
